@@ -98,3 +98,28 @@ Theorem C04_mp11_pool_refines_fifo : forall cf parents contained mc children rai
      Glob (rev (map (fun e => Res (e_pay e)) (fst (mfifo raises n q))) ++ g_tr g) (g_cb g) (g_plan g) (g_val g) (g_up g) (g_bad g)).
 Proof. exact mp11_pool_refines_fifo. Qed.
 Print Assumptions C04_mp11_pool_refines_fifo.
+
+(* ---- whole machines: events stored from outside ---- *)
+From Msm Require Import Spec Lemmas_Sim Lemmas_Core Lemmas_SpecRun Lemmas_SpecQueue.
+
+(* `sp_qop` extends the specification function (Spec.v) by one pending list: enqueue_event appends to it; start(),
+   process_event (after the event's own step) and execute_queued_events dispatch what it holds oldest first, each stored
+   occurrence as one complete step (`sp_drain`), and empty it; stop() leaves it alone.  For every core definition, every
+   history of these operations (behaviours only observe) and every guard valuation the back engine (either compile
+   policy) is this function: every stored occurrence is dispatched exactly once, in storage order, never inside another
+   step - same behaviour invocations, order, arguments and configurations. *)
+Theorem C04_back_stored_events_exactly_once_in_order : forall cf md l,
+  c_be cf = Back -> flat_events md -> core (md_root md) -> back_start_queues = true -> Forall qplain_op l ->
+  count_enq l + depth (md_root md) + 3 <= default_fuel ->
+  Forall2 step_ok (sp_qrun (c_pol cf) (md_root md) (abs (init_rnode (md_root md)), []) l) (run cf md l).
+Proof. exact back_queue_is_spec. Qed.
+Print Assumptions C04_back_stored_events_exactly_once_in_order.
+
+Example C04_stored_events_example :
+  core (md_root ex_core_md) /\ flat_events ex_core_md /\ Forall qplain_op ex_queue_ops /\
+  count_enq ex_queue_ops + depth (md_root ex_core_md) + 3 <= default_fuel /\
+  map (fun st => length (fst st)) (run (Cfg Back false 0 false) ex_core_md ex_queue_ops) = [0; 3; 0; 0; 4; 0; 1; 2; 0; 8].
+Proof.
+  split; [exact ex_core_ok|]. split; [intros [|e]; reflexivity|].
+  split; [repeat constructor; cbn; discriminate|]. split; [vm_compute; repeat constructor | vm_compute; reflexivity].
+Qed.
